@@ -511,7 +511,6 @@ def cargo_metadata_check(ctx, manifests, counters):
         for i, text, rc, so, se in ex.map(one, items):
             counters["cargo_metadata_runs"] += 1
             if rc != 0:
-                wild = re.search(r'= "\*"', text)
                 ctx.fail("manifest-invalid-for-cargo", {"cargo_toml": text, "stderr": se[-1500:]}, "cargo metadata rejects the manifest")
                 continue
             pkg = json.loads(so)["packages"][0]
@@ -587,6 +586,7 @@ def run(ctx):
     shutil.rmtree(base, ignore_errors=True)
     n_fail_cases = 0
     aw_agree = 0
+    aw_comparable = 0
     inproc_obs = []
     for c, (entry, files), o in zip(cases, rendered, outs):
         if "crash" in o:
@@ -601,8 +601,10 @@ def run(ctx):
             try:
                 got = sorted(d["crate"] for d in deps_of(parse_manifest(ob["cargo_toml"])))
                 key = json.dumps([c["name"], c["layout"], c["place"]], sort_keys=True)
-                if key in aw_declared and aw_declared[key] == got:
-                    aw_agree += 1
+                if key in aw_declared:
+                    aw_comparable += 1
+                    if aw_declared[key] == got:
+                        aw_agree += 1
             except TomlError:
                 pass
 
@@ -674,7 +676,7 @@ def run(ctx):
         "replica_vs_cli_disagreements": disagree,
         "refs_differ_from_model": counters["refs_differ_from_model"],
         "refs_differ_examples": counters["refs_examples"],
-        "aswritten_model_predicts_tree_declared_set": f"{aw_agree}/{len(cases)}",
+        "aswritten_model_predicts_tree_declared_set": f"{aw_agree}/{aw_comparable} programs (those within the as-written configuration's bounds)",
         "e2e_offline_builds": e2e,
         "exhaustive": True,
     }, assumptions=[
